@@ -25,7 +25,7 @@ func TestVerifReplay(t *testing.T) {
 		defer func() {
 			if e := recover(); e != nil {
 				if _, isA := e.(verifAssumeFailed); isA {
-					t.Logf("VERIF-REPLAY-ASSUME-FAILED: recorded inputs do not satisfy the harness assumptions")
+					t.Logf("a harness assumption failed on the recorded inputs (see stdout for its position)")
 					return
 				}
 				panic(e)
